@@ -28,7 +28,7 @@ ASSUMPTIONS = [
     "Climate1D supports the dynamic types (0,0), (0,1), (1,0) and (pseudo)scalar constant fields only (library assertions)",
 ]
 CONFIG = {
-    "quick": {"examples": 240, "shards": 16, "shrink_s": 40, "time_budget_s": 270},
+    "quick": {"examples": 400, "shards": 16, "shrink_s": 40, "time_budget_s": 270},
     "thorough": {"examples": 1500, "shards": 16, "shrink_s": 200, "time_budget_s": 1500},
 }
 GROUPS = ["B", "SO", "C2", "C4", "Z2", "triv", "perm"]
